@@ -50,20 +50,23 @@ Proof.
   destruct (o_code o) as [|[|k]].
   - destruct (Nat.ltb (LIM.out s) n) eqn:E; [|discriminate]. apply Nat.ltb_lt in E. injection H as <- <-. simpl. lia.
   - destruct (Nat.ltb (LIM.out s) n) eqn:E; injection H as <- <-; [apply Nat.ltb_lt in E; simpl; lia|auto].
-  - destruct (LIM.out s) eqn:E; injection H as <- <-; simpl; [rewrite E|]; lia.
+  - destruct (Nat.eqb n 0); [injection H as <- <-; auto|]. destruct (LIM.out s) eqn:E; injection H as <- <-; simpl; [rewrite E|]; lia.
 Qed.
 
 Lemma lim_bound n scripts sched :
   lim_ok n (AO.obj (run (AO.step (LIM.sstep n)) sched (AO.init LIM.init scripts))).
 Proof. apply ao_inv; [unfold lim_ok; simpl; lia|]. intros; eapply lim_step_ok; eauto. Qed.
 
-(* Return answers ErrLimitReturn exactly when there is no outstanding borrow *)
+(* Return answers ErrLimitReturn exactly when there is no outstanding borrow (on a limit of 0: always) *)
 Lemma lim_return n s t : forall o, 2 <= o_code o ->
-  exists s', LIM.sstep n s t o = Some (s', if Nat.eqb (LIM.out s) 0 then 1 else 0) /\
-             (LIM.out s = 0 -> s' = s).
+  exists s', LIM.sstep n s t o = Some (s', if Nat.eqb n 0 || Nat.eqb (LIM.out s) 0 then 1 else 0) /\
+             (n = 0 \/ LIM.out s = 0 -> s' = s).
 Proof.
   intros o Ho. unfold LIM.sstep. destruct (o_code o) as [|[|k]]; try lia.
-  destruct (LIM.out s) eqn:E; simpl; eexists; split; try reflexivity; auto. discriminate.
+  destruct (Nat.eqb n 0) eqn:En; simpl.
+  - eexists; split; [reflexivity|auto].
+  - apply Nat.eqb_neq in En. destruct (LIM.out s) eqn:E; simpl; eexists; split; try reflexivity; auto.
+    intros [?|?]; [contradiction|discriminate].
 Qed.
 
 (* ------------------------------------------------------------------ RefResource *)
